@@ -432,6 +432,22 @@ Example tail_field_examples :
   end.
 Proof. vm_compute. repeat split; reflexivity. Qed.
 
+(* GPOS: three decimal strings kept verbatim; the constructor's checks (_validate_float_string, |latitude| <= 90,
+   |longitude| <= 180 as floats) are the cross-field check, shared with the C02 model (SchemaM.gpos_ok) *)
+Example gpos_examples :
+  match schema_of 27 with
+  | Some gpos =>
+      let g1 := [VBytes [45; 51; 50; 46; 54; 56; 56; 50]; VBytes [49; 49; 54; 46; 56; 54; 53; 50]; VBytes [49; 48; 46; 48]] in   (* -32.6882 116.8652 10.0 *)
+      let g2 := [VBytes [43; 57; 48; 46]; VBytes [46; 53]; VBytes [45; 48]] in                                           (* +90. .5 -0 *)
+      let bad := [VBytes [57; 48; 46; 49]; VBytes [48]; VBytes [48]] in                                                  (* 90.1 0 0 *)
+      schema_chk 27 g1 = Ok tt /\ schema_chk 27 g2 = Ok tt /\ schema_chk 27 bad = Lib eFormError
+      /\ (do text <- record_to_text ex_sty gpos g1; record_from_text ex_ctx gpos (schema_chk 27) text) = Ok g1
+      /\ (do text <- record_to_text ex_sty gpos g2; record_from_text ex_ctx gpos (schema_chk 27) (text ++ [10])) = Ok g2
+      /\ (do text <- record_to_text ex_sty gpos bad; record_from_text ex_ctx gpos (schema_chk 27) text) = Lib eSyntax
+  | None => False
+  end.
+Proof. vm_compute. repeat split; reflexivity. Qed.
+
 (* TSIG (meta record; its text form exists for debugging): BADSIG is printed for error 16, the other data is
    present or absent according to its length, a wrong MAC length is rejected *)
 Example tsig_examples :
